@@ -139,7 +139,7 @@ TDirectPartial ==
 TDirectRun == TDirectEnd \/ TDirectPartial
 
 \* main-thread private steps that are not logged
-Silent == /\ (RunOther \/ TDirectRun \/ AfterRW \/ TiGet \/ (EndSignal /\ m.loopI >= m.nInit))
+Silent == /\ (RunOther \/ RunTailEarlyError \/ TDirectRun \/ AfterRW \/ TiGet \/ (EndSignal /\ m.loopI >= m.nInit))
           /\ UNCHANGED l
 
 TNext == Logged \/ Silent
